@@ -534,10 +534,26 @@ impl Property for C10 {
         }
         case.session.push(Step::Direct(vec![Stmt::Run(None)]));
         let steps = rng.below(5) as usize;
-        grow(rng, &mut case, steps, |rng, _case, last, _i| {
+        let mut fn_names: Vec<String> = vec![];
+        for l in &case.prog.lines {
+            crate::gen::walk_stmts(&l.stmts, &mut |s| {
+                if let Stmt::DefFn { name, .. } = s {
+                    if !fn_names.contains(&name.text()) {
+                        fn_names.push(name.text());
+                    }
+                }
+            });
+        }
+        for extra in ["A", "B", "C%"] {
+            if fn_names.len() < 3 && !fn_names.iter().any(|n| n == extra) {
+                fn_names.push(extra.to_string());
+            }
+        }
+        grow(rng, &mut case, steps, |rng, case, last, _i| {
             let call = |rng: &mut Rng| -> Vec<Stmt> {
                 // direct-mode calls of the program's functions, with globals changed between definition and call
-                let f = *rng.pick(&["A", "B", "C%"]);
+                let f = rng.pick::<String>(&fn_names).clone();
+                let f = f.as_str();
                 let args = match rng.below(3) {
                     0 => vec![Expr::Int(2)],
                     1 => vec![Expr::Int(2), Expr::Sng(1.5)],
@@ -564,6 +580,51 @@ impl Property for C10 {
                         Step::Direct(call(rng))
                     }
                 }
+                4 if rng.pct(50) => {
+                    // DELETE of one simple, unreferenced line: an edit after which the functions are
+                    // gone until their DEF executes again
+                    let cur = current_program(case);
+                    let simple = |l: &Line| {
+                        let mut ok = true;
+                        crate::gen::walk_stmts(&l.stmts, &mut |s| {
+                            if !matches!(s, Stmt::Let { .. } | Stmt::Print { .. } | Stmt::Rem(..) | Stmt::DefFn { .. } | Stmt::Swap(..) | Stmt::MidSet { .. } | Stmt::Dim(_)) {
+                                ok = false;
+                            }
+                        });
+                        ok
+                    };
+                    let referenced = |p: &Program, idx: usize| -> bool {
+                        let mut hit = false;
+                        for l in &p.lines {
+                            crate::gen::walk_stmts(&l.stmts, &mut |s| {
+                                let mut s2 = s.clone();
+                                crate::gen::map_targets_stmt(&mut s2, &mut |t| {
+                                    if *t == Target::L(idx) {
+                                        hit = true;
+                                    }
+                                });
+                            });
+                        }
+                        hit
+                    };
+                    let cands: Vec<usize> = (0..cur.lines.len()).filter(|i| simple(&cur.lines[*i]) && !referenced(&cur, *i)).collect();
+                    if cands.is_empty() {
+                        Step::Direct(vec![Stmt::Clear])
+                    } else {
+                        let idx = *rng.pick(&cands);
+                        let num = cur.lines[idx].num;
+                        let mut p = cur.clone();
+                        p.lines.remove(idx);
+                        crate::gen::map_targets(&mut p, &mut |t| {
+                            if let Target::L(i) = t {
+                                if *i > idx {
+                                    *i -= 1;
+                                }
+                            }
+                        });
+                        Step::Renum(format!("DELETE {}", num), p)
+                    }
+                }
                 4 => Step::Direct(vec![Stmt::Clear]),
                 _ => Step::Direct(vec![Stmt::Run(None)]),
             })
@@ -583,12 +644,12 @@ impl Property for C10 {
         }
     }
     fn rule(&self) -> &'static str {
-        "one evaluation = a generated program defining 2-3 user functions (1-3 parameters of Integer/Single/String type named like program variables, bodies reading globals and calling earlier functions) and calling them inside PRINT lists, subscripts, FOR headers, IF predicates, ON selectors and other calls' arguments, with planted wrong-arity / undefined-function calls, plus a session (DEF typed in direct mode, RUN, direct-mode calls with globals changed after the definition, CLEAR followed by calls, CONT) judged by RefBASIC (parameters in a local frame, everything else global at call time); 2% of the evaluations are runaway recursion programs that must end in ?OUT OF MEMORY with the session still usable; distinct = distinct API/event log fingerprint"
+        "one evaluation = a generated program defining 2-3 user functions (1-3 parameters of Integer/Single/String type named like program variables, bodies reading globals and calling earlier functions) and calling them inside PRINT lists, subscripts, FOR headers, IF predicates, ON selectors and other calls' arguments, with planted wrong-arity / undefined-function calls, plus a session (DEF typed in direct mode, RUN, direct-mode calls with globals changed after the definition, CLEAR followed by calls, DELETE of a line followed by calls, CONT) judged by RefBASIC (parameters in a local frame, everything else global at call time); 2% of the evaluations are runaway recursion programs that must end in ?OUT OF MEMORY with the session still usable; distinct = distinct API/event log fingerprint"
     }
     fn assumptions(&self) -> Vec<&'static str> {
         vec![
             "functions take at least one parameter (the manual's syntax; `DEF FNA()` is a syntax error)",
-            "calls made after the program was edited are not exercised (grey zone, appendix A)",
+            "after an edit (here: DELETE of one simple unreferenced line) every function is undefined until its DEF executes again, as on a fresh interpreter fed the listing",
             "a runtime error raised inside a function body defined on another line discards the case: which line is reported is not settled",
             "user-function calls while TRON is on discard the case",
             "the type of an unsuffixed parameter under DEFtype is a grey zone: parameters are suffixed or DEFtype is absent",
